@@ -4,6 +4,25 @@ import "time"
 
 // The registered harness runs per property.  Parameters are the stated bounds.
 var checks = map[string][]HarnessSpec{
+	"C08": {
+		{Name: "HarnessC08Hole", Pkg: "bql", Quick: map[string]int{"N": 2, "ASCII": 1}, Thorough: map[string]int{"N": 3, "ASCII": 1}},
+		{Name: "HarnessC08Tokens", Pkg: "bql", Quick: map[string]int{"L": 6}, Thorough: map[string]int{"L": 9}},
+		{Name: "HarnessC08Corpus", Pkg: "bql"},
+	},
+	"C04": {
+		{Name: "HarnessC04Statement", Pkg: "bql", Quick: map[string]int{"K": 1}, Thorough: map[string]int{"K": 1}},
+		{Name: "HarnessC04Statement", Pkg: "bql", Thorough: map[string]int{"K": 2, "CASE": 0}, OnlyThorough: true},
+		{Name: "HarnessC04Statement", Pkg: "bql", Thorough: map[string]int{"K": 2, "CASE": 1}, OnlyThorough: true},
+		{Name: "HarnessC04Statement", Pkg: "bql", Thorough: map[string]int{"K": 2, "CASE": 2}, OnlyThorough: true},
+		{Name: "HarnessC04Statement", Pkg: "bql", Thorough: map[string]int{"K": 2, "CASE": 3}, OnlyThorough: true},
+		{Name: "HarnessC04Statement", Pkg: "bql", Thorough: map[string]int{"K": 2, "CASE": 4}, OnlyThorough: true},
+		{Name: "HarnessC04Statement", Pkg: "bql", Thorough: map[string]int{"K": 2, "CASE": 5}, OnlyThorough: true},
+		{Name: "HarnessC04Statement", Pkg: "bql", Thorough: map[string]int{"K": 2, "CASE": 6}, OnlyThorough: true},
+		{Name: "HarnessC04Statement", Pkg: "bql", Thorough: map[string]int{"K": 2, "CASE": 7}, OnlyThorough: true},
+		{Name: "HarnessC04Statement", Pkg: "bql", Thorough: map[string]int{"K": 2, "CASE": 8}, OnlyThorough: true},
+		{Name: "HarnessC04Statement", Pkg: "bql", Thorough: map[string]int{"K": 2, "CASE": 9}, OnlyThorough: true},
+		{Name: "HarnessC04Statement", Pkg: "bql", Thorough: map[string]int{"K": 2, "CASE": 10}, OnlyThorough: true},
+	},
 	"C03": {
 		{Name: "HarnessC03Select", Pkg: "bql", Quick: map[string]int{"K": 2, "TEMPORAL": 1}, Thorough: map[string]int{"K": 3, "TEMPORAL": 1}, ThoroughWall: 90 * time.Minute},
 	},
@@ -114,7 +133,7 @@ var commonAssumptions = []string{
 	"bounds: string/slice lengths, numbers of operations and skeleton choices are those listed per harness in coverage.harnesses[].params; nothing is claimed outside them",
 	"intrinsics re-implemented in the engine (internal/bytealg, fmt verbs %s %q %v %d %t %T %f, sync, sync/atomic, sort.Slice, reflect.DeepEqual, unsafe.String/SliceData, math.Float64bits) are trusted and spot-checked by the native differential validation (traces_validated_against_impl)",
 	"fmt.Errorf messages are built lazily (only when Error() is called)",
-	"z3 4.8.12 / cvc5 1.0 verdicts are trusted; any (error or unknown answer makes the run inconclusive",
+	"z3 5.1.0 (default), z3 4.8.12 and cvc5 1.0 verdicts are trusted; any (error or unknown answer makes the run inconclusive",
 }
 
 func assumptionsFor(prop string) []string {
@@ -124,6 +143,8 @@ func assumptionsFor(prop string) []string {
 }
 
 var propAssumptions = map[string][]string{
+	"C08": {"stage 1 (bytes -> tokens) is C16; stage 2: ten statement templates with one hole of up to N symbolic 7-bit bytes in a token position (node, predicate, object, limit, time bound, having operand, projection, graph); stage 3: every token-type sequence up to L decided by the plain parser, rendered with sample texts; plus a corpus of 16 awkward well-formed statements; each against an empty and a three-triple store", "goroutines: the engine runs the lexer goroutine, update() writers and the planner's errgroup workers as coroutines on one canonical schedule; leak check = goroutines started and not finished once everything runnable has run", "texts outside the sample pool in stage 3, holes longer than N, and schedules other than the canonical one are outside the claim"},
+	"C04": {"one statement per run from a corpus of eleven (INSERT/DELETE into one and two graphs, CREATE, DROP, CONSTRUCT, DECONSTRUCT, CONSTRUCT with ';' reification, CONSTRUCT into a missing graph, CREATE of an existing graph) against a store with two graphs holding K symbolic immutable triples each", "graph contents are read back through Graph.Triples and compared fork-free with the expected set (pre-state plus/minus the listed or instantiated triples); the WHERE solutions are the reference of C03", "blank nodes come from the uuid.NewRandom stub (pairwise distinct values)"},
 	"C03": {"the statement is concrete (17 one- and two-clause shapes of the conjunctive fragment: constants, new and repeated bindings in every position, anchored and anchor-binding predicates, joins on one and two bindings, a product, an existence clause), the data is symbolic: K triples over the universe /u<a|b>, predicate a|b immutable or temporal at one of two anchors, object node or text", "whole pipeline executed from text: lexer, parser, semantic hooks, planner, memory driver, with its goroutines (canonical schedule; rows compared as a multiset)", "reference: brute-force assignments clause -> stored triple, compared fork-free (every row is a solution, every solution is a row, row count = number of solutions)"},
 	"C10": {"kernel: Table.LeftOptionalJoin on two tables of <= ROWS rows sharing 0, 1 or 2 bindings; join cells are one symbolic byte over {a,b} (string cells; with KINDS>0 also text-literal and node cells); rows are tagged with id columns so every output row is attributed to its (left,right) pair", "the end-to-end OPTIONAL obligations (through the planner) are listed in the same evidence when registered"},
 	"C11": {"kernel: Table.Reduce with count, count distinct and int64 sum on <= ROWS rows, grouping cells one symbolic byte over {a,b}, values symbolic in [-3,3]; sort.Sort interpreted from its source", "float sums are not covered"},
